@@ -112,6 +112,11 @@ def cases(tier, seed):
     for top in (None, 'core', 'wrapper'):
         for wb in ('same', 'foreign'):
             out.append({'k': 'blif', 'text': two, 'K': 1, 'top': top, 'wb': wb, 'tag': 'top_model:%s%s' % (top, ':block=' if wb == 'foreign' else '')})
+    # without top_model the FIRST model of the file is the design, also when a later model instantiates it
+    cellfirst = ('.model core\n.inputs a b\n.outputs y\n.names a b y\n11 1\n.end\n'
+                 '.model wrapper\n.inputs a b\n.outputs y\n.subckt core a=a b=b y=n\n.names n y\n0 1\n.end\n')
+    for top in (None, 'core', 'wrapper'):
+        out.append({'k': 'blif', 'text': cellfirst, 'K': 1, 'top': top, 'tag': 'top_model:%s:cell-listed-first' % top})
     # an empty cover is the constant 0 whether or not the .names line lists inputs
     t = '.model top\n.inputs a b\n.outputs y z\n.names a b n\n.names n a y\n01 1\n10 1\n.names z\n.end\n'
     out.append({'k': 'blif', 'text': t, 'K': 1, 'tag': 'cover:empty-with-inputs'})
